@@ -256,7 +256,7 @@ pub fn worker_main(prop: &dyn Prop, tier: Tier, seed: u64, dir: &str, wid: usize
     // watchdog: abort the process if one case runs too long
     {
         let current = current.clone();
-        let limit = std::env::var("BV_CASE_TIMEOUT").ok().and_then(|s| s.parse().ok()).unwrap_or(20u64);
+        let limit = std::env::var("BV_CASE_TIMEOUT").ok().and_then(|s| s.parse().ok()).unwrap_or(60u64);
         std::thread::spawn(move || loop {
             std::thread::sleep(std::time::Duration::from_millis(500));
             let (t, active) = *current.lock().unwrap();
